@@ -4286,6 +4286,7 @@ impl Database {
                         table_name: table_name.to_string(),
                         column_count: column_types.len(),
                         column_types,
+                        table_def: table_def.clone(),
                         record_schema,
                         root_page: std::cell::Cell::new(0),
                         rightmost_hint: std::cell::Cell::new(None),
